@@ -505,6 +505,48 @@ theorem clip_aabb_line_some_nonempty (b : Aabb3 K) (o d : V3 K) (hb : ValidBox b
     exact ⟨key.1, st.tmin, (key.2 st.tmin).mp ⟨le_refl _, key.1⟩⟩
 
 
+/-- **C17 (`clip_aabb_line`, faces)**: the side indices returned with the two parameters name faces that are really hit:
+`k+1` ⇒ the point at that parameter lies on the `mins` face of axis `k`, `-(k+1)` ⇒ on its `maxs` face; index `0` is returned
+only when no axis constrained the parameter (it is then still `∓f64::MAX`, e.g. for a zero direction). -/
+theorem clip_aabb_line_sides (b : Aabb3 K) (o d : V3 K) (near far : K × V3 K × Int)
+    (h : letI := fieldNum K sq; clipAabbLine b o d = some (near, far)) :
+    FaceHit b o d near.1 near.2.2 (-big K) ∧ FaceHit b o d far.1 far.2.2 (big K) := by
+  letI : Num K := fieldNum K sq
+  simp only [clipAabbLine] at h
+  have key : ∀ st, clipLoop b o d = some st →
+      FaceHit b o d st.tmin st.nearSide (-big K) ∧ FaceHit b o d st.tmax st.farSide (big K) := by
+    intro st hst
+    simp only [clipLoop, Option.bind_some] at hst
+    have i0 : FaceHit b o d (@clipInit K (fieldNum K sq)).tmin (@clipInit K (fieldNum K sq)).nearSide (-big K) ∧
+        FaceHit b o d (@clipInit K (fieldNum K sq)).tmax (@clipInit K (fieldNum K sq)).farSide (big K) := by
+      constructor <;> left <;> simp [clipInit, f64Max_eq]
+    cases h0 : clipStep b o d clipInit 0 with
+    | none => rw [h0] at hst; simp at hst
+    | some s0 =>
+      rw [h0] at hst; simp only [Option.bind_some] at hst
+      have i1 := clipStep_sides sq b o d _ s0 0 i0.1 i0.2 h0
+      cases h1 : clipStep b o d s0 1 with
+      | none => rw [h1] at hst; simp at hst
+      | some s1 =>
+        rw [h1] at hst; simp only [Option.bind_some] at hst
+        have i2 := clipStep_sides sq b o d _ s1 1 i1.1 i1.2 h1
+        exact clipStep_sides sq b o d _ st 2 i2.1 i2.2 hst
+  cases hl : clipLoop b o d with
+  | none => rw [hl] at h; simp at h
+  | some st =>
+    rw [hl] at h
+    simp only [Option.some.injEq, Prod.mk.injEq] at h
+    obtain ⟨e1, e2⟩ := h
+    have k := key st hl
+    subst e1 e2
+    constructor
+    · split_ifs <;> exact k.1
+    · split_ifs <;> exact k.2
+
+/-- a line entering through the `mins.x` face (side `1`) and leaving through the `maxs.x` face (side `-1`) -/
+example : (letI := fieldNum ℚ id; (clipAabbLine (⟨⟨0, 0, 0⟩, ⟨1, 2, 3⟩⟩ : Aabb3 ℚ) ⟨-1, 1, 1⟩ ⟨1, 0, 0⟩).map fun c => (c.1.2.2, c.2.2.2))
+    = some (1, -1) := by decide +kernel
+
 /-- **C17 (`Aabb::clip_line_parameters`)**: `Some((t0,t1))` ⇒ `[t0,t1]` is exactly the parameter set of the line inside the box
 (within `|t| ≤ f64::MAX`) and is non-empty; `None` ⇒ that set is empty. -/
 theorem clip_line_parameters_spec (b : Aabb3 K) (o d : V3 K) (hb : ValidBox b) :
